@@ -191,6 +191,21 @@ def corpus_dir_programs(sub):
     return out
 
 
+def near_miss_programs():
+    """corpus/c06/ill_typed (single files) and corpus/c06/ill_typed_modules (one directory per program)"""
+    out = []
+    base = os.path.join(VERIF, "corpus", "c06")
+    for name in sorted(os.listdir(os.path.join(base, "ill_typed"))):
+        if name.endswith(".sam"):
+            out.append({"origin": f"corpus:c06/ill_typed/{name[:-4]}", "entry": "Main",
+                        "sources": {"Main": open(os.path.join(base, "ill_typed", name)).read()}})
+    for name in sorted(os.listdir(os.path.join(base, "ill_typed_modules"))):
+        pth = os.path.join(base, "ill_typed_modules", name)
+        out.append({"origin": f"corpus:c06/ill_typed_modules/{name}", "entry": "Main",
+                    "sources": {f[:-4]: open(os.path.join(pth, f)).read() for f in sorted(os.listdir(pth)) if f.endswith(".sam")}})
+    return out
+
+
 def arm_drop_mutants(d, name, programs, per_program, seed):
     """One arm of one `match` deleted (harness/src/faults.rs, --arm-drop): the checker must reject the mutant
     or the remaining arms must cover every value that reaches the match when the mutant runs."""
